@@ -182,6 +182,7 @@ def obligations(tier, seed):
         for gi, g in enumerate(groups):
             obs.append(dict(name='ops_%s_g%d' % (DIMS[ia][0].replace('/', '-'), gi), func='h_ops',
                             param=dict(a=ia, ops=g), timeout=to))
+        obs.append(dict(name='derived_%s' % DIMS[ia][0].replace('/', '-'), func='h_derived', param=dict(a=ia), timeout=to))
     return obs
 
 
@@ -195,3 +196,39 @@ def validate(tier, seed):
         if [float(x) for x in u.exps] != [float(e) for e in exps]:
             bad.append(name)
     return [dict(name='dimension table vs eval_qty', ok=not bad, n=len(DIMS), detail='mismatch: %r' % bad)]
+
+
+def h_derived(d: bool):
+    """
+    post: _[0]
+    """
+    begin()
+    # the same dimension reached along different routes (power vs quotient vs product) is the SAME dimension
+    ia = PARAM['a']
+    av, bv = R('av'), R('bv')
+    if av == 0 or bv == 0:
+        return skip()
+    a, b = _mk(ia, av), _mk(ia, bv)
+    route = choose('route', 4)
+    try:
+        if route == 0:
+            x, y, xv, yv = a ** -1, 1 / b, 1 / av, 1 / bv
+        elif route == 1:
+            x, y, xv, yv = (a * a) / a, b, av, bv
+        elif route == 2:
+            x, y, xv, yv = a ** 2, b * b, av * av, bv * bv
+        else:
+            x, y, xv, yv = (a ** -1) ** -1, b, av, bv
+        eq, ne = (x == y), (x != y)
+        if bool(eq) != bool(xv == yv) or bool(ne) != bool(xv != yv):
+            return finish(False, 'derived: equality between equal dimensions reached along different routes (route %d, %s)' % (route, DIMS[ia][0]))
+        if not x.has_units(y.units):
+            return finish(False, 'derived: has_units is false for the same dimension (route %d, %s)' % (route, DIMS[ia][0]))
+        ssum = x + y
+        lt = x < y
+        ok = isinstance(ssum, Q.Quantity) and ssum.value == xv + yv and bool(lt) == bool(xv < yv)
+        return finish(ok, 'derived: sum/order between the same dimension reached along different routes (route %d)' % route)
+    except UnitsError:
+        return finish(False, 'derived: UnitsError between the same dimension reached along different routes (route %d, %s)' % (route, DIMS[ia][0]))
+    except Exception as e:
+        return finish(False, 'derived: raised ' + type(e).__name__)
